@@ -256,7 +256,7 @@ Query(X, q, i, cur, env) ==
                ELSE IF f.st = "PASS" THEN Query(X, q, i + 1, cur, fenv) ELSE Ok(<<>>)
              ELSE IF q[i - 1].p = "key" THEN
                FilterMapValues(X, q, i, part.c, cur.v, 1, env)
-             ELSE Err("panic:filter-on-map")       \* eval_context.rs:752 unreachable!()
+             ELSE Err("filter-on-map")             \* eval_context.rs:752 IncompatibleError (unreachable!() before fix 9c67bd0)
            ELSE IF i > 1 /\ q[i - 1].p \in {"idx", "var"} THEN
              LET f == EvalCnf(X, part.c, Append(env, VScope(cur))) IN
              IF f.err THEN f
